@@ -599,7 +599,7 @@ def leaves(l, base=0, cap=64):
 # --------------------------------------------------------------------------------
 # ownership of type objects: which objects may a function modify?
 # --------------------------------------------------------------------------------
-FRESH, SHARED, TAG, UNKNOWN = 'fresh', 'shared', 'tag', 'unknown'
+FRESH, SHARED, TAG, UNKNOWN, SHALLOW = 'fresh', 'shared', 'tag', 'unknown', 'shallow-copy'
 
 
 def _norm_t(t):
@@ -613,7 +613,12 @@ class Ownership:
     function that only returns such objects, or the address of a local), ('param', i) (what the i-th parameter pointed to on entry,
     or something reached from it), TAG (the object a tag lookup `&scope->tags` yields: the struct/union type a definition completes),
     SHARED (anything else: a global, the value of a `Type *` field, the result of any other call), UNKNOWN (what a local whose address
-    was taken, or the target of a pointer to a pointer, holds: not tracked). Assignments to locals are strong
+    was taken, or the target of a pointer to a pointer, holds: not tracked), SHALLOW (an object this activation - or a function that
+    only returns such objects - allocated and then filled by a whole-object copy `*new = *old` / memcpy: the object itself is new,
+    but what its pointer fields lead to still belongs to the original, so a load of an owned pointer - the member list - from it
+    yields SHARED; once that pointer field has been given a FRESH value the object counts as FRESH). A local `P **` (P protected)
+    that only ever receives `&obj->field` of protected objects is tracked as the set of objects it points into: `*pp` is a load
+    from, `*pp = v` a store into, those objects. Assignments to locals are strong
     updates, control flow joins by union, loops run to a fixpoint. A load of a pointer to a protected record yields SHARED when the
     pointee is `share_loads` (type objects form a shared graph) and the provenance of the object loaded from otherwise (a member list
     belongs to its type object). Per function the analysis yields
@@ -638,6 +643,16 @@ class Ownership:
             for name, fd in u.functions.items():
                 self.fns[(u.name, name)] = (u, fd)
                 self.by_name.setdefault(name, []).append((u.name, name))
+        self.owned_fields = {}        # protected record -> names of its fields that point to an owned (not share_loads) protected record
+        for u in units:
+            for r, fs in u.records.items():
+                if r in self.protected and r not in self.owned_fields:
+                    own = []
+                    for f, t, _b in fs:
+                        w = _norm_t(t).split()
+                        if len(w) == 2 and w[1] == '*' and w[0] in self.protected and w[0] not in self.share_loads:
+                            own.append(f)
+                    self.owned_fields[r] = own
         self.ret = {f: frozenset() for f in self.fns}
         self.writes = {f: {} for f in self.fns}
         self.stores, self.calls, self.gaps = {}, {}, {}
@@ -699,6 +714,13 @@ class Ownership:
                 x = n.inner[0].strip()
                 if x.kind == 'DeclRefExpr' and x.ref_id in self.locals and self._is_ptr(x):
                     self.escaped.add(x.ref_id)
+        self.pp, tracked_addr = self._pp_locals(fd, params)
+        self.escaped = set()
+        for n in fd.walk():
+            if n.kind == 'UnaryOperator' and n.opcode == '&' and id(n) not in tracked_addr:
+                x = n.inner[0].strip()
+                if x.kind == 'DeclRefExpr' and x.ref_id in self.locals and self._is_ptr(x):
+                    self.escaped.add(x.ref_id)
         body = [c for c in fd.inner if c.kind == 'CompoundStmt']
         self.labels = {}
         has_goto = any(n.kind in ('GotoStmt', 'LabelStmt', 'IndirectGotoStmt') for n in fd.walk())
@@ -725,6 +747,66 @@ class Ownership:
             if not fields <= w.get(i, set()):
                 w[i] = w.get(i, set()) | fields
                 self.changed = True
+
+    def _pp_of(self, n):
+        """protected record P when the expression has type `P **`"""
+        for t in (n.type, n.dtype):
+            w = _norm_t(t).split()
+            if len(w) == 3 and w[1] == '*' and w[2] == '*' and w[0] in self.protected:
+                return w[0]
+        return None
+
+    def _pp_locals(self, fd, params):
+        """{local id: {(record, field) | ('local', id)}} for the locals of type `P **` whose every assigned value is `&x->field` /
+        `&x.field` of a protected record x, or `&v` of a local `P *v` (flow-insensitive; parameters and anything else: not in the
+        map = not tracked); and the ids of the `&v` nodes accepted that way (v is then updated by stores through the `P **`)"""
+        cands = {}
+        addr = {}
+        for n in fd.walk():
+            if n.kind == 'VarDecl' and n.id in self.locals and self._pp_of(n):
+                cands[n.id] = set()
+        pids = set(p.id for p in params)
+        def src(var, e):
+            if var not in cands or cands[var] is None:
+                return
+            x = e.strip_all()
+            ok = False
+            if x.kind == 'UnaryOperator' and x.opcode == '&':
+                m = x.inner[0].strip()
+                if m.kind == 'MemberExpr':
+                    b = m.inner[0]
+                    rec = (self._pointee(b.strip()) or self._pointee(b)) if m.d.get('isArrow') else self._record(b.strip())
+                    if rec:
+                        cands[var].add((rec, m.name))
+                        ok = True
+                elif m.kind == 'DeclRefExpr' and m.ref_id in self.locals and m.ref_id not in pids and self._pointee(m) and self.locals[m.ref_id].kind == 'VarDecl':
+                    cands[var].add(('local', m.ref_id))
+                    addr.setdefault(var, []).append(id(x))
+                    ok = True
+            if not ok:
+                cands[var] = None
+        for n in fd.walk():
+            if n.kind == 'VarDecl' and n.id in cands and 'init' in n.d and n.inner:
+                src(n.id, n.inner[-1])
+            elif n.kind == 'BinaryOperator' and n.opcode == '=':
+                l = n.inner[0].strip()
+                if l.kind == 'DeclRefExpr' and l.ref_id in cands:
+                    src(l.ref_id, n.inner[1])
+            elif n.kind in ('CompoundAssignOperator',) or (n.kind == 'UnaryOperator' and n.opcode in ('++', '--')):
+                l = n.inner[0].strip()
+                if l.kind == 'DeclRefExpr' and l.ref_id in cands:
+                    cands[l.ref_id] = None
+            elif n.kind == 'UnaryOperator' and n.opcode == '&':
+                l = n.inner[0].strip()
+                if l.kind == 'DeclRefExpr' and l.ref_id in cands:
+                    cands[l.ref_id] = None            # its address escapes
+        pp = {k: v for k, v in cands.items() if v and k not in pids}
+        return pp, set(i for k in pp for i in addr.get(k, []))
+
+    @staticmethod
+    def _loaded(obj):
+        """provenance of an owned pointer loaded from objects `obj`: what a shallow copy points to belongs to the original"""
+        return (obj - frozenset([SHALLOW])) | frozenset([SHARED]) if SHALLOW in obj else obj
 
     # -- states ------------------------------------------------------------------------
     @staticmethod
@@ -916,8 +998,8 @@ class Ownership:
             if isinstance(a, tuple):
                 self.f_writes.setdefault(a[1], set()).add(key)
 
-    def _assign_target(self, lhs, st, value):
-        """the store a write to the lvalue `lhs` performs; value: atoms assigned (None: read-modify-write)"""
+    def _assign_target(self, lhs, st, value, rhs=None):
+        """the store a write to the lvalue `lhs` performs; value: atoms assigned (None: read-modify-write); rhs: the assigned expression"""
         l = lhs.strip()
         if l.kind == 'DeclRefExpr':
             self._forget(st, var=l.ref_id)
@@ -934,12 +1016,38 @@ class Ownership:
             pl = self._place(l)
             if pl is not None and value is not None and self._pointee(l) is not None:
                 st[('mem',) + pl] = value
+            # a shallow copy whose (only) owned pointer field receives a fresh value no longer shares anything owned
+            b = base.strip()
+            if (rec and l.d.get('isArrow') and b.kind == 'DeclRefExpr' and b.ref_id in self.locals and b.ref_id not in self.escaped
+                    and st.get(b.ref_id) == frozenset([SHALLOW]) and value is not None and self.owned_fields.get(rec) == [l.name]):
+                if value <= frozenset([FRESH, SHALLOW]):
+                    st[b.ref_id] = frozenset([FRESH])
+                elif value <= frozenset([FRESH, SHALLOW, UNKNOWN]):
+                    st[b.ref_id] = frozenset([FRESH, UNKNOWN])       # what the field now leads to is not tracked
             return
+        if l.kind == 'UnaryOperator' and l.opcode == '*':
+            v = l.inner[0].strip()
+            if v.kind == 'DeclRefExpr' and v.ref_id in self.pp:
+                obj = st.get(v.ref_id, frozenset())
+                for rec, field in sorted(self.pp[v.ref_id], key=str):
+                    if rec == 'local':
+                        if value is not None:
+                            st[field] = st.get(field, frozenset()) | value
+                        self._forget(st, var=field)
+                        continue
+                    self._store(rec, field, obj, l.line)
+                    self._forget(st, field=field)
+                return
         rec = self._record(l)
         obj = self._object(l, st)
         self._forget(st)
         if rec:
             self._store(rec, '*', obj, l.line)
+            # `*new = *old`: the new object is a shallow copy (its pointer fields lead into what the original owns)
+            if l.kind == 'UnaryOperator' and l.opcode == '*' and rhs is not None and rhs.strip_all().kind not in ('CompoundLiteralExpr', 'InitListExpr'):
+                v = l.inner[0].strip()
+                if v.kind == 'DeclRefExpr' and v.ref_id in self.locals and v.ref_id not in self.escaped and st.get(v.ref_id) == frozenset([FRESH]):
+                    st[v.ref_id] = frozenset([SHALLOW])
 
     def _eval(self, n, st):
         """atoms of the pointer value of an expression (empty for non-pointers and null); performs the side effects on st"""
@@ -970,14 +1078,23 @@ class Ownership:
                 if pl is not None and ('mem',) + pl in st:
                     return st[('mem',) + pl]
                 if p not in self.share_loads:
-                    return obj
+                    return self._loaded(obj)
             return frozenset([SHARED])
         if k == 'UnaryOperator':
             op = n.opcode
             if op == '&':
                 return self._object(I[0], st)
             if op == '*':
-                self._eval(I[0], st)
+                v = self._eval(I[0], st)
+                x = I[0].strip()
+                if x.kind == 'DeclRefExpr' and x.ref_id in self.pp and self._is_ptr(n):
+                    p = self._pointee(n)
+                    if p is None or p in self.share_loads:
+                        return frozenset([SHARED])
+                    out = frozenset()
+                    for rec, field in self.pp[x.ref_id]:
+                        out |= st.get(field, frozenset()) if rec == 'local' else self._loaded(v)
+                    return out
                 return frozenset([UNKNOWN]) if self._is_ptr(n) else frozenset()
             if op in ('++', '--'):
                 v = self._eval(I[0], st)
@@ -989,7 +1106,7 @@ class Ownership:
             op = n.opcode
             if op == '=':
                 v = self._eval(I[1], st)
-                self._assign_target(I[0], st, v)
+                self._assign_target(I[0], st, v, I[1])
                 return v
             if op == ',':
                 self._eval(I[0], st)
@@ -1053,6 +1170,9 @@ class Ownership:
             rec = self._pointee(args[0].strip()) or self._pointee(args[0].strip_all())
             if rec:
                 self._store(rec, '*', vals[0], n.line)
+                d = args[0].strip_all()
+                if name != 'memset' and d.kind == 'DeclRefExpr' and d.ref_id in self.locals and d.ref_id not in self.escaped and st.get(d.ref_id) == frozenset([FRESH]):
+                    st[d.ref_id] = frozenset([SHALLOW])
             return vals[0]
         if isptr and any(self._mentions_tags(a) for a in args):
             return frozenset([TAG])
